@@ -36,6 +36,7 @@ type Clause struct {
 
 type loopSpec struct {
 	invariant []*Clause
+	decreases []*Clause // termination: an integer expression that is >= 0 at the head and smaller after every iteration
 	unroll    int
 }
 
@@ -483,6 +484,20 @@ func parseContractFile(pkg, path, src string) (*ContractFile, error) {
 				ncl.ord++
 			}
 			cur.clauses = append(cur.clauses, ncl)
+		case "decreases":
+			// measure of a self-recursive function: non-negative, and smaller for the arguments of every recursive call
+			if cur == nil {
+				return nil, fail(fmt.Errorf("clause outside func"))
+			}
+			body := rest
+			if j := strings.Index(body, " //"); j >= 0 {
+				body = strings.TrimSpace(body[:j])
+			}
+			ex, err := parseExpr(body)
+			if err != nil {
+				return nil, fail(err)
+			}
+			cur.clauses = append(cur.clauses, &Clause{kind: "decreases", expr: ex, src: body, line: lineNos[i]})
 		case "comparator":
 			if cur == nil {
 				return nil, fail(fmt.Errorf("clause outside func"))
@@ -529,6 +544,16 @@ func parseContractFile(pkg, path, src string) (*ContractFile, error) {
 			switch f[1] {
 			case "unroll":
 				ls.unroll, _ = strconv.Atoi(f[2])
+			case "decreases":
+				body := strings.TrimSpace(strings.TrimPrefix(strings.TrimSpace(strings.TrimPrefix(rest, f[0])), "decreases"))
+				if j := strings.Index(body, " //"); j >= 0 {
+					body = strings.TrimSpace(body[:j])
+				}
+				ex, err := parseExpr(body)
+				if err != nil {
+					return nil, fail(err)
+				}
+				ls.decreases = append(ls.decreases, &Clause{kind: "decreases", expr: ex, src: body, line: lineNos[i]})
 			case "invariant":
 				irest, using := splitUsing(strings.TrimSpace(strings.TrimPrefix(strings.TrimSpace(strings.TrimPrefix(rest, f[0])), "invariant")))
 				body, tags := splitTags(irest)
